@@ -100,6 +100,9 @@ type c01Block struct {
 type c01Case struct {
 	// PerField: feed the decoder one Write per encoded field instead of one per block.
 	PerField bool       `json:"per_field,omitempty"`
+	// Full: blocks go through Decoder.DecodeFull (the other way to decode a block)
+	// unless they are fed per field.
+	Full bool `json:"full,omitempty"`
 	Blocks   []c01Block `json:"blocks"`
 }
 
@@ -675,6 +678,7 @@ func c01GenCase(t *rapid.T, sensBias bool) c01Case {
 	})
 	return c01Case{
 		PerField: rapid.Bool().Draw(t, "perField"),
+		Full:     rapid.IntRange(0, 2).Draw(t, "full") == 0,
 		Blocks:   rapid.SliceOfN(blockGen, 1, maxBlocks).Draw(t, "blocks"),
 	}
 }
